@@ -11,7 +11,7 @@ Proof. apply alookup_aremove_eq. Qed.
 Lemma fget_fdel_ne f p q : q <> p -> fget (fdel f p) q = fget f q.
 Proof. intros; apply alookup_aremove_ne; auto. Qed.
 
-Ltac dsimpl := cbn [d_fs d_anc d_tick d_open d_events with_fs with_event with_open tick fst snd] in *.
+Ltac dsimpl := cbn [d_fs d_anc d_tick d_open d_events d_x with_fs with_event with_open tick with_failed count_write fst snd] in *.
 
 Ltac inv_pair H := inversion H; subst; clear H.
 
@@ -34,7 +34,7 @@ Proof.
     destruct (d_anc st); inv_pair H; reflexivity.
   - (* CreateOrUpdateFile *)
     assert (Hne : p <> p0) by congruence.
-    unfold open_for_write, write_chunk, stamp_file in H.
+    unfold open_for_write, write_chunk, stamp_file, refuses, write_fails in H.
     repeat (break_match_hyp H; try discriminate); inv_pair H; dsimpl;
       rewrite ?fget_fset_ne by auto; rewrite ?fget_fset_ne by auto; rewrite ?fget_fset_ne by auto; try reflexivity.
   - (* CreateSymlink *)
@@ -54,12 +54,13 @@ Proof.
     repeat (break_match_hyp H; try discriminate); inv_pair H; dsimpl; rewrite ?fget_fdel_ne by auto; reflexivity.
 Qed.
 
-(* A command that is answered with an error has not changed the tree. *)
+(* A command that is answered with an error has not changed the tree - except a failed write, which
+   leaves the (created or truncated) file with whatever it wrote and no final timestamp. *)
 Lemma doer_exec_err_fs fl st c st' e :
-  doer_exec fl st c = (st', Some e) -> d_fs st' = d_fs st.
+  doer_exec fl st c = (st', Some e) -> e <> EWrite -> d_fs st' = d_fs st.
 Proof.
-  intros H. destruct c; cbn [doer_exec] in *; try discriminate; unfold open_for_write in H;
-    repeat (break_match_hyp H; try discriminate); inv_pair H; dsimpl; reflexivity.
+  intros H Hne. destruct c; cbn [doer_exec] in *; try discriminate; unfold open_for_write, refuses, write_fails in H;
+    repeat (break_match_hyp H; try discriminate); inv_pair H; dsimpl; try reflexivity; congruence.
 Qed.
 
 (* Read-only commands change nothing at all. *)
